@@ -224,6 +224,55 @@ def run(prog: Program, chk: Check):
 
 
 # ---------------------------------------------------------------------------------------------------------------
+TRIPLES = [[("native", a1, a1, None), ("native", a2, a2, None), ("native", a3, a3, None)] for a1 in (1, 2, 4) for a2 in (2, 4, 8) if a2 > a1 for a3 in (1, 2, 4) if a3 < a2]
+
+
+def padded_member_names(prog: Program):
+    """check_alignment interpreted (auto_pad on) over the (small, big, small) families that need padding in front of a member
+    and at the end: for each, the names of the resulting members.  Used by C04-U (member names are identifiers in every
+    generated language: they must be pairwise distinct)."""
+    from ..setalg import Interp, ModelRaise, Obj
+    from .. import artefacts
+
+    pm = prog.module(PAR)
+    ca = prog.func(PAR, "Parser.check_alignment")
+    fcls, ncls, scls = pm.classes["Field"], pm.classes["NativeType"], pm.classes["SDF"]
+    mcls = pm.classes.get("MDF")
+    natives = artefacts.native_types(prog)
+    nat_objs = {k: Obj(ncls, "NativeType", name=k, size=v[0], format=v[1]) for k, v in natives.items()}
+    by_size = {1: "char", 2: "int16", 4: "int32", 8: "int64"}
+
+    def construct(ci, args, kwargs):
+        if ci is fcls:
+            d = dict(name=None, type_name=None, type_obj=None, length_expression=None, length_expanded=None, length=None, offset=-1)
+            for k_, v_ in zip(d, args):
+                d[k_] = v_
+            d.update(kwargs)
+            return Obj(fcls, "Field", **d)
+        raise AnalysisError(f"vocabulary exceeded: construction of {ci.name}")
+
+    out = []
+    for seq in TRIPLES:
+        user = [Obj(fcls, "Field", name=f"u{i}", type_name=by_size[k[1]], type_obj=nat_objs[by_size[k[1]]], length_expression=None, length_expanded=None, length=k[3], offset=-1)
+                for i, k in enumerate(seq)]
+        s_obj = Obj(scls, "SDF", name="X", fields=list(user), alignment=8)
+        parser = Obj(prog.cls(PAR, "Parser"), "Parser", auto_pad=True)
+
+        def ctype_size(selfobj, args, kwargs):
+            fl = args[0].get("fields")
+            return natural([(f.get("type_obj").get("size"), f.get("type_obj").get("size") * (f.get("length") or 1)) for f in fl])[1]
+
+        it = Interp(prog, {"warning": lambda s_, a_, k_: None, "get_ctype_size": ctype_size},
+                    {"supported_types": nat_objs, "Field": ("class", fcls), "NativeType": ("class", ncls), "SDF": ("class", scls), **({"MDF": ("class", mcls)} if mcls is not None else {})}, construct=construct)
+        raised = None
+        try:
+            it.call_method(ca, parser, [s_obj])
+        except ModelRaise as r_:
+            raised = r_.name
+        out.append((seq, raised, [f.get("name") for f in s_obj.get("fields")]))
+    return ca, out
+
+
 def natural(fields):
     """Independent natural C layout of [(align, size)] -> (offsets, total size incl. tail padding, max align)."""
     ptr, offs, mx = 0, [], 1
@@ -272,6 +321,8 @@ def alignment_induction(prog: Program, chk: Check):
         for k1 in kinds:
             for k2 in kinds[::3]:
                 seqs.append([k1, k2])
+    # a definition that needs padding both in front of a member and at its end takes three members (small, big, small)
+    seqs += TRIPLES
     steps = 0
     nrun = 0
     failures = {}
@@ -335,6 +386,8 @@ def alignment_induction(prog: Program, chk: Check):
                         why = "a user field was renamed or resized"
                     elif any(x.get("type_name") != "char" or x.get("type_obj") is not nat_objs["char"] for x in extra):
                         why = "a non-char padding field was inserted"
+                    elif len({f.get("name") for f in fl}) != len(fl):
+                        why = "two members share one name: " + ", ".join(sorted({str(f.get("name")) for f in fl if sum(1 for g_ in fl if g_.get("name") == f.get("name")) > 1}))
                     else:
                         # explicit layout: offsets are the running sum; user fields must sit on their natural offsets
                         ptr, ok_off = 0, True
